@@ -16,6 +16,9 @@ pub struct Env {
     pub publ: Option<String>,
     pub safe: Vec<String>,
     pub path: Vec<String>,
+    /// private helper / trait-default methods that may be inlined when called on the iterator: name -> (params, body)
+    pub helpers: std::rc::Rc<BTreeMap<String, (Vec<String>, Block)>>,
+    pub depth: usize,
 }
 
 impl Env {
@@ -176,8 +179,27 @@ pub fn ex(e: &Expr, env: &mut Env) -> Result<String, String> {
                         env.index = i; env.cached = c; "()".into()
                     }
                     "sync_index" => { env.publ = Some(env.index.clone()); "()".into() }
-                    _ => return Err(format!("method `{recv_txt}.{name}`")),
+                    _ => match env.helpers.clone().get(&name) {
+                        // a private helper or a trait-default method of the same iterator: executed in place
+                        Some((params, body)) if params.len() == args.len() && env.depth < 4 => {
+                            let saved = std::mem::take(&mut env.vars);
+                            for (p, a) in params.iter().zip(args.iter()) { env.vars.insert(p.clone(), a.clone()); }
+                            env.depth += 1;
+                            let r = block(body, env);
+                            env.depth -= 1;
+                            env.vars = saved;
+                            r?.unwrap_or_else(|| "()".into())
+                        }
+                        _ => return Err(format!("method `{recv_txt}.{name}`")),
+                    },
                 }
+            } else if name == "unwrap_or" && m.args.len() == 1 && matches!(&*m.receiver, Expr::MethodCall(c) if c.method == "checked_sub" && c.args.len() == 1) {
+                // `a.checked_sub(b).unwrap_or(d)`: the difference when it exists, else `d`
+                let c = match &*m.receiver { Expr::MethodCall(c) => c, _ => unreachable!() };
+                let a = ex(&c.receiver, env)?;
+                let b = ex(&c.args[0], env)?;
+                let d = ex(&m.args[0], env)?;
+                if d == "0" { format!("({a} - {b})") } else { merge(&format!("({a} ≥ {b})"), &format!("({a} - {b})"), &d) }
             } else {
                 let r = ex(&m.receiver, env)?;
                 let mut args = Vec::new();
@@ -187,13 +209,67 @@ pub fn ex(e: &Expr, env: &mut Env) -> Result<String, String> {
                     "unchecked_add" => { env.obligation(format!("{r} + {} < 2^64", args[0])); format!("({r} + {})", args[0]) }
                     "unchecked_mul" => { env.obligation(format!("{r} * {} < 2^64", args[0])); format!("({r} * {})", args[0]) }
                     "saturating_sub" => format!("({r} - {})", args[0]),
-                    "wrapping_add" | "wrapping_sub" => return Err(format!("wrapping arithmetic `{name}`")),
+                    // 64-bit modular arithmetic, as it is
+                    "wrapping_add" => format!("(({r} + {}) % 2^64)", args[0]),
+                    "wrapping_sub" => format!("(({r} + 2^64 - {}) % 2^64)", args[0]),
                     "div_ceil" => { env.obligation(format!("0 < {}", args[0])); format!("(({r} + {} - 1) / {})", args[0], args[0]) }
                     "min" => format!("(min {r} {})", args[0]),
                     "max" => format!("(max {r} {})", args[0]),
                     _ => return Err(format!("method `{name}` on a value")),
                 }
             }
+        }
+        Expr::Match(m) if matches!(&*m.expr, Expr::MethodCall(c) if c.method == "cmp" && c.args.len() == 1) => {
+            // match a.cmp(&b) { Less => .., Equal => .., Greater => .. } (or-patterns and `_` allowed)
+            let c = match &*m.expr { Expr::MethodCall(c) => c, _ => unreachable!() };
+            let a = ex(&c.receiver, env)?;
+            let b = ex(&c.args[0], env)?;
+            fn ords(p: &Pat, out: &mut Vec<usize>) -> Result<(), String> {
+                match p {
+                    Pat::Or(o) => { for c in &o.cases { ords(c, out)?; } Ok(()) }
+                    Pat::Wild(_) => { out.extend([0, 1, 2]); Ok(()) }
+                    Pat::Path(_) | Pat::Ident(_) => {
+                        let t = quote::quote!(#p).to_string().replace(' ', "");
+                        let k = match t.rsplit("::").next().unwrap_or("") { "Less" => 0, "Equal" => 1, "Greater" => 2, o => return Err(format!("ordering pattern `{o}`")) };
+                        out.push(k); Ok(())
+                    }
+                    _ => Err("ordering pattern".into()),
+                }
+            }
+            // per outcome (Less, Equal, Greater): value and resulting state
+            let mut res: [Option<(String, Env)>; 3] = [None, None, None];
+            for arm in &m.arms {
+                if arm.guard.is_some() { return Err("match guard".into()); }
+                let mut ks = Vec::new();
+                ords(&arm.pat, &mut ks)?;
+                let ks: Vec<usize> = ks.into_iter().filter(|k| res[*k].is_none()).collect();
+                if ks.is_empty() { continue; }
+                let has = |k: usize| ks.contains(&k);
+                let cond = match (has(0), has(1), has(2)) {
+                    (true, false, false) => Some(format!("({a} < {b})")), (false, true, false) => Some(format!("({a} = {b})")),
+                    (false, false, true) => Some(format!("({a} > {b})")), (true, true, false) => Some(format!("({a} ≤ {b})")),
+                    (false, true, true) => Some(format!("({a} ≥ {b})")), (true, false, true) => Some(format!("({a} ≠ {b})")),
+                    _ => None,
+                };
+                let mut aenv = env.clone();
+                aenv.safe = Vec::new();
+                if let Some(c) = &cond { aenv.path.push(c.clone()); }
+                let v = ex(&arm.body, &mut aenv)?;
+                if cond.is_some() { aenv.path.pop(); }
+                for k in ks { res[k] = Some((v.clone(), aenv.clone())); }
+            }
+            let [l, e, g] = res;
+            let (lv, le) = l.ok_or("no arm for `Less`")?;
+            let (ev, ee) = e.ok_or("no arm for `Equal`")?;
+            let (gv, ge) = g.ok_or("no arm for `Greater`")?;
+            if le.publ != ee.publ || ee.publ != ge.publ { return Err("publication differs between arms".into()); }
+            let (clt, ceq) = (format!("({a} < {b})"), format!("({a} = {b})"));
+            let m3 = |x: &str, y: &str, z: &str| merge(&clt, x, &merge(&ceq, y, z));
+            env.index = m3(&le.index, &ee.index, &ge.index);
+            env.cached = m3(&le.cached, &ee.cached, &ge.cached);
+            env.publ = le.publ.clone();
+            for s in le.safe.iter().chain(ee.safe.iter()).chain(ge.safe.iter()) { if !env.safe.contains(s) { env.safe.push(s.clone()); } }
+            m3(&lv, &ev, &gv)
         }
         Expr::Match(m) => {
             // match <bool> { true => a, false => b }
@@ -252,6 +328,15 @@ pub fn ex(e: &Expr, env: &mut Env) -> Result<String, String> {
             "()".into()
         }
         Expr::Cast(c) => ex(&c.expr, env)?,
+        Expr::Call(c) => {
+            let f = q(&c.func);
+            let base = f.rsplit("::").next().unwrap_or("").to_string();
+            if (base == "min" || base == "max") && c.args.len() == 2 && (f == base || f.ends_with(&format!("cmp::{base}"))) {
+                let a = ex(&c.args[0], env)?;
+                let b = ex(&c.args[1], env)?;
+                format!("({base} {a} {b})")
+            } else { return Err(format!("call `{f}`")); }
+        }
         _ => return Err(format!("expression `{}`", q(e))),
     })
 }
@@ -340,11 +425,56 @@ fn safe_text(env: &Env) -> String {
     if v.is_empty() { "True".into() } else { v.join(" ∧\n  ") }
 }
 
+/// Methods that may be executed in place when the translated body calls them on the iterator: the default methods of
+/// the iterator traits, overridden by the methods defined in the file of the function being translated.
+fn collect_helpers(src: &mut Src, path: &str) -> std::rc::Rc<BTreeMap<String, (Vec<String>, Block)>> {
+    fn params(sig: &syn::Signature) -> Vec<String> {
+        sig.inputs.iter().filter_map(|a| match a {
+            syn::FnArg::Typed(t) => match &*t.pat { Pat::Ident(i) => Some(i.ident.to_string()), _ => Some("_".into()) },
+            _ => None,
+        }).collect()
+    }
+    fn has_cfg(attrs: &[syn::Attribute]) -> bool { attrs.iter().any(|a| a.path().is_ident("cfg")) }
+    let mut map = BTreeMap::new();
+    let mut ambiguous = std::collections::BTreeSet::new();
+    for (rel, traits_only) in [("src/iterators/iterator_trait.rs", true), (path, false)] {
+        let mut here = BTreeMap::new();
+        let mut amb_here = std::collections::BTreeSet::new();
+        if let Ok(file) = src.file(rel) {
+            for it in &file.items {
+                match it {
+                    SItem::Trait(t) if t.ident == "PrivateMRBIterator" || t.ident == "MRBIterator" => {
+                        for ti in &t.items { if let TraitItem::Fn(f) = ti { if let Some(b) = &f.default {
+                            let n = f.sig.ident.to_string();
+                            if has_cfg(&f.attrs) || here.contains_key(&n) { amb_here.insert(n.clone()); }
+                            here.insert(n, (params(&f.sig), b.clone()));
+                        } } }
+                    }
+                    SItem::Impl(i) if !traits_only => {
+                        for ii in &i.items { if let ImplItem::Fn(f) = ii {
+                            let n = f.sig.ident.to_string();
+                            if has_cfg(&f.attrs) || here.contains_key(&n) { amb_here.insert(n.clone()); }
+                            here.insert(n, (params(&f.sig), f.block.clone()));
+                        } }
+                    }
+                    _ => {}
+                }
+            }
+        }
+        for (k, v) in here { if amb_here.contains(&k) { ambiguous.insert(k.clone()); } else { ambiguous.remove(&k); } map.insert(k, v); }
+    }
+    // a name with two bodies (cfg variants, or the same method on two types of one file) is not inlined
+    for a in ambiguous { map.remove(&a); }
+    std::rc::Rc::new(map)
+}
+
 /// Symbolically executes one method and renders the five definitions of a state-transforming function.
 fn state_fn(src: &mut Src, path: &str, owner: &str, func: &str, lean: &str, ret_ty: Option<&str>) -> Result<String, String> {
+    let helpers = collect_helpers(src, path);
     let file = src.file(path)?;
     let f = find_fn(file, owner, func).ok_or(format!("fn `{func}` of `{owner}` not found in {path}"))?;
     let mut env = Env::new();
+    env.helpers = helpers;
     if f.params.len() > 1 { return Err(format!("`{func}` has {} parameters (at most one supported)", f.params.len())); }
     for p in &f.params { env.vars.insert(p.clone(), "count".into()); }
     let ret = block(f.block, &mut env)?;
@@ -379,33 +509,76 @@ fn ptr_off(e: &Expr, env: &mut Env) -> Result<String, String> {
     }
 }
 
-/// A `let` inside a chunk function: a pointer into the storage, or a value.
+/// A `let` inside a chunk function: a pointer into the storage, a slice of it, or a value.
 fn chunk_let(l: &syn::Local, env: &mut Env) -> Result<(), String> {
     let name = match &l.pat { Pat::Ident(i) => i.ident.to_string(), Pat::Type(t) => match &*t.pat { Pat::Ident(i) => i.ident.to_string(), _ => return Err("let pattern".into()) }, _ => return Err("let pattern".into()) };
     let init = &l.init.as_ref().ok_or("let without initialiser")?.expr;
     let mut probe = env.clone();
-    match ptr_off(init, &mut probe) {
-        Ok(off) => { *env = probe; env.vars.insert(name, format!("PTR@{off}")); }
-        Err(_) => { let v = ex(init, env)?; env.vars.insert(name, v); }
-    }
+    if let Ok(off) = ptr_off(init, &mut probe) { *env = probe; env.vars.insert(name, format!("PTR@{off}")); return Ok(()); }
+    let mut probe = env.clone();
+    if let Ok((off, len)) = slice_val(init, &mut probe) { *env = probe; env.vars.insert(name, format!("SL@{off}@{len}")); return Ok(()); }
+    let v = ex(init, env)?;
+    env.vars.insert(name, v);
     Ok(())
 }
 
-/// `slice::from_raw_parts[_mut](ptr[.add(off)], len)` possibly wrapped in `transmute::<..>(..)`, or an empty slice literal.
-fn slice_desc(e: &Expr, env: &mut Env) -> Result<(String, String), String> {
+type Sl = (String, String);
+
+/// Runs the `let`s of a block (visible inside it only) and evaluates its tail expression with `f`.
+fn chunk_block<R>(stmts: &[Stmt], env: &mut Env, f: &dyn Fn(&Expr, &mut Env) -> Result<R, String>) -> Result<R, String> {
+    let saved = env.vars.clone();
+    let n = stmts.len();
+    let mut res = Err("empty block".to_string());
+    for (k, s) in stmts.iter().enumerate() {
+        if k + 1 < n {
+            match s { Stmt::Local(l) => chunk_let(l, env)?, Stmt::Macro(m) if m.mac.path.segments.last().map(|s| s.ident.to_string().starts_with("debug_assert")).unwrap_or(false) => {}, _ => return Err("statement in a chunk function".into()) }
+            continue;
+        }
+        res = match s { Stmt::Expr(e, None) => f(e, env), _ => Err("block does not end in an expression".into()) };
+    }
+    env.vars = saved;
+    res
+}
+
+/// A slice of the storage as (offset, length): `slice::from_raw_parts[_mut](ptr[.add(off)], len)` possibly wrapped in
+/// `transmute::<..>(..)`, an empty slice literal, a local bound to one, or a conditional between such.
+fn slice_val(e: &Expr, env: &mut Env) -> Result<Sl, String> {
     match e {
-        Expr::Paren(p) => slice_desc(&p.expr, env),
-        Expr::Cast(c) => slice_desc(&c.expr, env),
+        Expr::Paren(p) => slice_val(&p.expr, env),
+        Expr::Group(p) => slice_val(&p.expr, env),
+        Expr::Cast(c) => slice_val(&c.expr, env),
         Expr::Reference(r) => match &*r.expr {
             Expr::Array(a) if a.elems.is_empty() => Ok(("0".into(), "0".into())),
-            _ => Err(format!("slice expression `{}`", q(e))),
+            o => slice_val(o, env),
         },
+        Expr::Path(_) => {
+            let n = q(e);
+            match env.vars.get(&n) {
+                Some(v) if v.starts_with("SL@") => { let mut it = v[3..].splitn(2, '@'); Ok((it.next().unwrap_or("").to_string(), it.next().unwrap_or("").to_string())) }
+                _ => Err(format!("`{n}` is not a slice of the storage")),
+            }
+        }
+        Expr::Block(b) => chunk_block(&b.block.stmts, env, &slice_val),
+        Expr::Unsafe(u) => chunk_block(&u.block.stmts, env, &slice_val),
+        Expr::If(i) => {
+            let c = ex(&i.cond, env)?;
+            env.path.push(c.clone());
+            let t = chunk_block(&i.then_branch.stmts, env, &slice_val);
+            env.path.pop();
+            let t = t?;
+            let else_e = &i.else_branch.as_ref().ok_or("no else branch")?.1;
+            env.path.push(neg(&c));
+            let f = slice_val(else_e, env);
+            env.path.pop();
+            let f = f?;
+            Ok((merge(&c, &t.0, &f.0), merge(&c, &t.1, &f.1)))
+        }
         Expr::Call(c) => {
             let fname = q(&c.func);
-            if fname.starts_with("transmute") {
+            if fname.starts_with("transmute") || fname.ends_with("::transmute") {
                 if c.args.len() != 1 { return Err("transmute arity".into()); }
-                slice_desc(&c.args[0], env)
-            } else if fname == "slice::from_raw_parts" || fname == "slice::from_raw_parts_mut" {
+                slice_val(&c.args[0], env)
+            } else if fname.ends_with("slice::from_raw_parts") || fname.ends_with("slice::from_raw_parts_mut") || fname == "from_raw_parts" || fname == "from_raw_parts_mut" {
                 if c.args.len() != 2 { return Err("from_raw_parts arity".into()); }
                 let off = ptr_off(&c.args[0], env)?;
                 let len = ex(&c.args[1], env)?;
@@ -413,6 +586,30 @@ fn slice_desc(e: &Expr, env: &mut Env) -> Result<(String, String), String> {
             } else { Err(format!("call `{fname}`")) }
         }
         _ => Err(format!("slice expression `{}`", q(e))),
+    }
+}
+
+/// The (head, tail) pair a chunk function returns: a tuple of slices, a conditional between such, or a single slice.
+fn pair_val(e: &Expr, env: &mut Env) -> Result<(Sl, Sl), String> {
+    match e {
+        Expr::Paren(p) => pair_val(&p.expr, env),
+        Expr::Tuple(t) if t.elems.len() == 2 => Ok((slice_val(&t.elems[0], env)?, slice_val(&t.elems[1], env)?)),
+        Expr::Block(b) => chunk_block(&b.block.stmts, env, &pair_val),
+        Expr::Unsafe(u) => chunk_block(&u.block.stmts, env, &pair_val),
+        Expr::If(i) => {
+            let c = ex(&i.cond, env)?;
+            env.path.push(c.clone());
+            let t = chunk_block(&i.then_branch.stmts, env, &pair_val);
+            env.path.pop();
+            let (th, tt) = t?;
+            let else_e = &i.else_branch.as_ref().ok_or("no else branch")?.1;
+            env.path.push(neg(&c));
+            let f = pair_val(else_e, env);
+            env.path.pop();
+            let (eh, et) = f?;
+            Ok(((merge(&c, &th.0, &eh.0), merge(&c, &th.1, &eh.1)), (merge(&c, &tt.0, &et.0), merge(&c, &tt.1, &et.1))))
+        }
+        e => Ok((slice_val(e, env)?, ("0".into(), "0".into()))),
     }
 }
 
@@ -457,68 +654,14 @@ fn chunk_fn(src: &mut Src, func: &str, lean: &str, vmem: bool) -> Result<String,
     let mut env = Env::new();
     env.vars.insert("count".into(), "count".into());
     let chk = ex(chk, &mut env)?;
-    // walk the closure body: lets, unsafe, then either a tuple / an if of tuples / a single slice
-    fn tail<'a>(e: &'a Expr, env: &mut Env) -> Result<&'a Expr, String> {
-        match e {
-            Expr::Block(b) => tail_block(&b.block, env),
-            Expr::Unsafe(u) => tail_block(&u.block, env),
-            e => Ok(e),
-        }
-    }
-    fn tail_block<'a>(b: &'a Block, env: &mut Env) -> Result<&'a Expr, String> {
-        let n = b.stmts.len();
-        for (k, s) in b.stmts.iter().enumerate() {
-            if k + 1 == n {
-                return match s { Stmt::Expr(e, None) => tail(e, env), _ => Err("closure does not end in an expression".into()) };
-            }
-            match s {
-                Stmt::Local(l) => chunk_let(l, env)?,
-                _ => return Err("statement in closure".into()),
-            }
-        }
-        Err("empty closure".into())
-    }
-    let t = tail(body, &mut env)?;
+    // the closure body: lets, unsafe, then a tuple of slices / a conditional between tuples / a single slice
+    let ((ho, hl), (to, tl)) = pair_val(body, &mut env)?;
     let mut o = String::new();
     o.push_str(&format!("def {lean}.checkArg {PARAMS} : Nat := {chk}\n"));
-    match t {
-        Expr::If(i) => {
-            let c = ex(&i.cond, &mut env)?;
-            // a branch: `let`s (visible in that branch only), then the pair of slices
-            fn pair(stmts: &[Stmt], env: &mut Env, c: &str) -> Result<((String, String), (String, String)), String> {
-                let saved = env.vars.clone();
-                env.path.push(c.to_string());
-                let mut res = Err("branch is not a pair of slices".to_string());
-                for (k, s) in stmts.iter().enumerate() {
-                    if k + 1 < stmts.len() { match s { Stmt::Local(l) => chunk_let(l, env)?, _ => return Err("statement in a branch".into()) } continue; }
-                    let e = match s { Stmt::Expr(e, None) => e, _ => return Err("branch does not end in an expression".into()) };
-                    res = match e {
-                        Expr::Tuple(t) if t.elems.len() == 2 => { let a = slice_desc(&t.elems[0], env)?; let b = slice_desc(&t.elems[1], env)?; Ok((a, b)) }
-                        Expr::Block(b) => { env.path.pop(); let r = pair(&b.block.stmts, env, c); env.path.push(c.to_string()); r }
-                        _ => Err("branch is not a pair of slices".into()),
-                    };
-                }
-                env.path.pop();
-                env.vars = saved;
-                res
-            }
-            let (th, tt) = pair(&i.then_branch.stmts, &mut env, &c)?;
-            let else_e = &i.else_branch.as_ref().ok_or("no else branch")?.1;
-            let else_stmts: Vec<Stmt> = match &**else_e { Expr::Block(b) => b.block.stmts.clone(), e => vec![Stmt::Expr(e.clone(), None)] };
-            let (eh, et) = pair(&else_stmts, &mut env, &neg(&c))?;
-            o.push_str(&format!("def {lean}.headOff {PARAMS} : Nat := {}\n", merge(&c, &th.0, &eh.0)));
-            o.push_str(&format!("def {lean}.headLen {PARAMS} : Nat := {}\n", merge(&c, &th.1, &eh.1)));
-            o.push_str(&format!("def {lean}.tailOff {PARAMS} : Nat := {}\n", merge(&c, &tt.0, &et.0)));
-            o.push_str(&format!("def {lean}.tailLen {PARAMS} : Nat := {}\n", merge(&c, &tt.1, &et.1)));
-        }
-        e => {
-            let (off, ln) = slice_desc(e, &mut env)?;
-            o.push_str(&format!("def {lean}.headOff {PARAMS} : Nat := {off}\n"));
-            o.push_str(&format!("def {lean}.headLen {PARAMS} : Nat := {ln}\n"));
-            o.push_str(&format!("def {lean}.tailOff {PARAMS} : Nat := 0\n"));
-            o.push_str(&format!("def {lean}.tailLen {PARAMS} : Nat := 0\n"));
-        }
-    }
+    o.push_str(&format!("def {lean}.headOff {PARAMS} : Nat := {ho}\n"));
+    o.push_str(&format!("def {lean}.headLen {PARAMS} : Nat := {hl}\n"));
+    o.push_str(&format!("def {lean}.tailOff {PARAMS} : Nat := {to}\n"));
+    o.push_str(&format!("def {lean}.tailLen {PARAMS} : Nat := {tl}\n"));
     o.push_str(&format!("def {lean}.safe {PARAMS} : Prop :=\n  {}\n", safe_text(&env)));
     Ok(o)
 }
@@ -549,7 +692,31 @@ fn derived_count_fn(src: &mut Src, func: &str, lean: &str) -> Result<String, Str
                     if body != want { return Err(format!("second arm is `{body}`, expected `{want}`")); }
                     Ok((scrut, "exact".into()))
                 }
-                _ => Err("body is not a match".into()),
+                // NonZeroUsize::new(<e>).and_then(|v| self.get_workable_slice_exact(v.get()))
+                Expr::MethodCall(mc) if mc.method == "and_then" && mc.args.len() == 1 => {
+                    let inner = match &*mc.receiver { Expr::Call(c) if q(&c.func).ends_with("NonZeroUsize::new") && c.args.len() == 1 => &c.args[0], _ => return Err("`and_then` on something other than `NonZeroUsize::new(..)`".into()) };
+                    let scrut = ex(inner, env)?;
+                    let cl = match &mc.args[0] { Expr::Closure(c) if c.inputs.len() == 1 => c, _ => return Err("`and_then` argument".into()) };
+                    let bind = match &cl.inputs[0] { Pat::Ident(i) => i.ident.to_string(), _ => return Err("closure parameter".into()) };
+                    let body = q(&cl.body);
+                    let want = format!("self.get_workable_slice_exact({bind}.get())");
+                    if body != want { return Err(format!("closure body is `{body}`, expected `{want}`")); }
+                    Ok((scrut, "exact".into()))
+                }
+                // if <e> == 0 { None } else { self.get_workable_slice_exact(<e>) }   (or the mirrored test)
+                Expr::If(i) => {
+                    let (l, op, r) = match &*i.cond { Expr::Binary(b) => (q(&b.left), match b.op { BinOp::Eq(_) => "==", BinOp::Ne(_) => "!=", BinOp::Gt(_) => ">", _ => return Err("test".into()) }, q(&b.right)), _ => return Err("test".into()) };
+                    if r != "0" { return Err("test is not against 0".into()); }
+                    let tail = |b: &Block| -> Option<String> { if b.stmts.len() == 1 { if let Stmt::Expr(e, None) = &b.stmts[0] { return Some(q(e)); } } None };
+                    let t = tail(&i.then_branch).ok_or("then branch")?;
+                    let e = match i.else_branch.as_ref().map(|x| &*x.1) { Some(Expr::Block(b)) => tail(&b.block).ok_or("else branch")?, _ => return Err("else branch".into()) };
+                    let (none_b, some_b) = if op == "==" { (t, e) } else { (e, t) };
+                    let want = format!("self.get_workable_slice_exact({l})");
+                    if none_b != "None" || some_b != want { return Err(format!("branches are `{none_b}` / `{some_b}`")); }
+                    let lexpr = match &*i.cond { Expr::Binary(b) => &b.left, _ => unreachable!() };
+                    Ok((ex(lexpr, env)?, "exact".into()))
+                }
+                _ => Err("body is not a recognised zero test".into()),
             };
         }
         Err("empty".into())
